@@ -218,3 +218,16 @@ def warmup_visible(ast):
             if 'partial-function-over-delayed' not in out:
                 out.append('partial-function-over-delayed')
     return out
+
+
+def consts_to_refs(ast, consts):
+    """replace literal leaves by references to declared constants; consts = [[name, value, how], ...]"""
+    inv = dict((v, k) for k, v, _ in consts)
+    if not inv:
+        return ast
+
+    def go(n):
+        if n[0] == 'const' and n[1] in inv:
+            return ['ref', inv[n[1]]]
+        return sg.with_children(n, [go(c) for c in sg.children(n)])
+    return go(ast)
